@@ -26,12 +26,14 @@ Universe == {
   F("src/notes.txt", <<"src">>, "notes.txt", "txt"),
   F("lib/d.lua", <<"lib">>, "d.lua", "lua"),
   F(".hidden.lua", <<>>, ".hidden.lua", "lua"),
+  F(".a.lua", <<>>, ".a.lua", "lua"),              \* a hidden sibling whose name differs from a.lua only by the dot
+
   F(".hid/h.lua", <<".hid">>, "h.lua", "lua") }
 
 Max2(a, b) == IF a > b THEN a ELSE b
 IsPrefix(p, q) == Len(p) <= Len(q) /\ \A i \in 1..Len(p) : p[i] = q[i]
 Hidden(f, from) ==       \* a component below the walk root starts with a dot
-  f.name \in {".hidden.lua"} \/ \E i \in (Len(from) + 1)..Len(f.dir) : f.dir[i] = ".hid"
+  f.name \in {".hidden.lua", ".a.lua"} \/ \E i \in (Len(from) + 1)..Len(f.dir) : f.dir[i] = ".hid"
 
 (* ---- gitignore semantics for the pattern language ---- *)
 (* pat = [k |-> "name"|"dir"|"ext"|"anch", v |-> value, neg |-> BOOLEAN]; base = directory of the ignore file *)
